@@ -985,8 +985,8 @@ def frame_elem_cases(ctx):
         sel = pairs if ctx.tier == 'thorough' else ctx.rng.sample(pairs, min(len(pairs), ctx.n(8, 0)))
         for hd, fv in sel:
             layouts = layouts3(host(hd))
-            if ctx.tier == 'thorough' and op not in LAYOUT_SENSITIVE:
-                layouts = layouts[::2]       # the block-insensitive operations: every other layout in the complete product
+            if op not in LAYOUT_SENSITIVE:
+                layouts = layouts[::2]       # the block-insensitive operations: every other layout
             for layout in layouts:
                 c = frame_elem_case(ctx, op, hd, fv, layout)
                 if c is not None:
